@@ -227,6 +227,9 @@ func RunDispatch(t *testing.T, sc *DScenario) (recs []interface{}, failure strin
 				case "1":
 					a = p.next("testreq", 0)
 					a.ID = []int{65}
+				case "2":
+					a = p.next("resend", 0)
+					a.B, a.E = 1, 0
 				case "0":
 					a = p.next("hbt", 0)
 				default:
